@@ -326,3 +326,58 @@ def impl_general(case):
                 nested = [kid["uid"], kid["paths"], ["err", "Other:" + type(e).__name__]]
             break
     return ["ok", text, seen, reloaded, nested]
+
+
+# ---- the write/read cycle through file PATHS in a process whose locale encoding is not UTF-8
+_LOCALE_SCRIPT = r'''
+import json, os, sys, tempfile
+import productmd.treeinfo as TI, productmd.discinfo as DI
+work = sys.argv[1]
+out = []
+for name in ["Fedora", "Caf\u00e9 Linux", "\u0424\u0435\u0434\u043e\u0440\u0430", "Linux \u2603"]:
+    for kind in ("treeinfo", "discinfo"):
+        p = os.path.join(work, "f-%d-%s" % (len(out), kind))
+        if kind == "treeinfo":
+            o = TI.TreeInfo()
+            o.release.name, o.release.short, o.release.version = name, "F", "1"
+            o.tree.arch, o.tree.build_timestamp, o.tree.platforms = "x86_64", 1, set(["x86_64"])
+            v = TI.Variant(o); v.id = v.uid = "Server"; v.name = name; v.type = "variant"; o.variants.add(v)
+            new, facts = TI.TreeInfo, lambda x: [x.release.name, x.variants["Server"].name]
+        else:
+            o = DI.DiscInfo()
+            o.timestamp, o.description, o.arch, o.disc_numbers = 1.5, name, "x86_64", ["ALL"]
+            new, facts = DI.DiscInfo, lambda x: [x.description]
+        try:
+            o.dump(p)
+        except Exception as e:
+            out.append([kind, name, "not-written", type(e).__name__]); continue
+        try:
+            b = new(); b.load(p)
+            out.append([kind, name, "read-back", facts(b) == facts(o)])
+        except Exception as e:
+            out.append([kind, name, "written-but-unreadable", type(e).__name__])
+print(json.dumps(out))
+'''
+
+
+def impl_locale_cycle(case):
+    import json
+    import os
+    import subprocess
+    from suites.common import VERIF
+    import shutil
+    import sys
+    import tempfile
+    work = tempfile.mkdtemp(prefix="loc-", dir=os.path.join(VERIF, ".work"))
+    try:
+        env = {"PATH": os.environ.get("PATH", ""), "PYTHONPATH": os.environ.get("PYTHONPATH", ""), "PYTHONHASHSEED": "0"}
+        env.update(case["env"])
+        script = os.path.join(work, "cycle.py")
+        with open(script, "w", encoding="ascii") as f:
+            f.write(_LOCALE_SCRIPT)
+        p = subprocess.run([sys.executable, script, work], env=env, capture_output=True, text=True, timeout=60)
+        if p.returncode != 0:
+            return ["child-failed", p.stderr[-300:]]
+        return ["ok", json.loads(p.stdout.strip().split("\n")[-1])]
+    finally:
+        shutil.rmtree(work, ignore_errors=True)
